@@ -52,7 +52,15 @@ LEAN_KEYWORDS = set("""at do end else then if fun let have show from in open def
  calc try catch finally unless break continue nomatch nofun this Type Prop Sort""".split())
 
 
+# names the generated text uses itself: a Python local of the same name is renamed, never captured
+RESERVED = set("""some none pure decide true false Py Int Nat Bytes Option List Unit Bool Tls CT Gen bind id
+ ct_lt_u32 ct_gt_u32 ct_le_u32 ct_lsb_prop_u8 ct_lsb_prop_u16 ct_isnonzero_u32 ct_neq_u32 ct_eq_u32
+ ct_check_cbc_mac_and_pad translated translatorProblems""".split())
+
+
 def ident(n):
+    if n in RESERVED:
+        return "«py:%s»" % n
     return "«%s»" % n if n in LEAN_KEYWORDS or not n.isidentifier() else n
 
 
@@ -70,6 +78,14 @@ class Fn(object):
         self.fresh = set()       # mac-typed names bound to a fresh copy (mutation cannot be seen elsewhere)
         self.notes = []
         self.tmp = 0
+        self.py_names = set()    # every identifier the Python function mentions
+
+    def fresh_tmp(self):
+        while True:
+            t = "s%d" % self.tmp
+            self.tmp += 1
+            if t not in self.py_names:
+                return t
 
     # ---- expressions: return (lean text, kind); partial pieces appear as (← …) --------------
     def poison_expr(self, node, why, kind="int"):
@@ -372,8 +388,7 @@ class Fn(object):
                 c, _ = self.expr(s.test, "bool")
                 env0, fresh0 = dict(self.env), set(self.fresh)
                 tup, ty = self.tuple_of(names)
-                tmp = "s%d" % self.tmp
-                self.tmp += 1
+                tmp = self.fresh_tmp()
                 res = []
                 ok = True
                 fresh_after = set(fresh0)
@@ -413,8 +428,7 @@ class Fn(object):
                 names = [x for x in self.assigned(s.body) if x in self.env]
                 env0, fresh0 = dict(self.env), set(self.fresh)
                 tup, ty = self.tuple_of(names)
-                tmp = "s%d" % self.tmp
-                self.tmp += 1
+                tmp = self.fresh_tmp()
                 self.env[var] = "int"
                 inner = []
                 if len(names) > 1:
@@ -542,6 +556,12 @@ class Translator(object):
                 for al in s.names:
                     nm = (al.asname or al.name).split(".")[0]
                     imported.add(nm)
+                    if nm == "*":
+                        # anything may be rebound: nothing can be resolved
+                        bad.update(n for n, _, _, _ in EXPECT)
+                        bad.add("compatHMAC")
+                    if nm in [n for n, _, _, _ in EXPECT]:
+                        bad.add(nm)
                     if not (isinstance(s, ast.ImportFrom) and s.module == "compat" and al.name == "compatHMAC"
                             and al.asname is None):
                         self.module_names.add(nm)
@@ -591,6 +611,7 @@ class Translator(object):
                 continue
             f = Fn(self, name)
             f.result_kind = eres
+            f.py_names = set(n.id for n in ast.walk(fn) if isinstance(n, ast.Name)) | set(eparams)
             for p, k in zip(eparams, ekinds):
                 f.env[p] = k
             body = f.block(fn.body, "  ", None)
